@@ -63,7 +63,7 @@ func must(err error) {
 }
 
 // build creates the furniture around the root: a note in every ancestor, siblings that extend the
-// root's name, an unrelated sibling, a file at the top.  plant(dir, kind) lets the component put a
+// root's name, a sibling whose name is the root's in another letter case, an unrelated sibling, a file at the top.  plant(dir, kind) lets the component put a
 // well-formed decoy (a record / a resource file) into the sibling directories.
 func newSandbox(scope, top, rootRel string, decoy func(dir string)) *sandbox {
 	s := &sandbox{scope: scope, top: top, rootRel: rootRel, root: filepath.Join(top, rootRel), inoFd: -1}
@@ -79,7 +79,9 @@ func newSandbox(scope, top, rootRel string, decoy func(dir string)) *sandbox {
 	}
 	parent := filepath.Dir(s.root)
 	name := filepath.Base(s.root)
-	for _, sib := range []string{name + "-other", name + "x", "other"} {
+	// (caseVariant(name): a sibling that differs from the root in letter case only — a different directory here, the same
+	// name for any comparison that folds case)
+	for _, sib := range []string{name + "-other", name + "x", "other", caseVariant(name)} {
 		d := filepath.Join(parent, sib)
 		must(os.MkdirAll(filepath.Join(d, "sub"), 0o755))
 		must(os.WriteFile(filepath.Join(d, "plain.txt"), []byte("OUTSIDE "+sib+"\n"), 0o644))
